@@ -166,6 +166,7 @@ def recasedTy : Ty → J → J → Bool
   | .slice t, .arr l, .arr l' => recasedList t l l'
   | .map t, .obj m, .obj m' => recasedMapVals t m m'
   | _, a, b => decide (a = b)
+termination_by structural _ a => a
 def recasedList (t : Ty) : JL → JL → Bool
   | .nil, .nil => true
   | .cons h r, .cons h' r' => recasedTy t h h' && recasedList t r r'
